@@ -32,7 +32,7 @@ ASSUMPTIONS = [
                'and at most the requested number; it does not require a particular s']
 EXPECTED_PROBES = {'C17': ['spike_on_bound', 'stride_not_dividing', 'unknown_cluster',
                            'subsampled_cluster', 'exactly_n_eligible', 'empty_request',
-                           'subset_and_chunks', 'kept_more_than_chunks', 'float_chunk_grid', 'subset_with_repeated_id', 'spike_before_first_bound',
+                           'subset_and_chunks', 'kept_more_than_chunks', 'float_chunk_grid', 'subset_with_repeated_id', 'spike_before_first_bound', 'spike_times_not_sorted',
                            'cluster_requested_twice']}
 
 
@@ -52,6 +52,13 @@ def gen(rng, prop, tier):
         else:
             times.append(rng.randint(0, T + (2 if rng.random() < 0.2 else 0)))
     times.sort()
+    if ns >= 2 and rng.random() < 0.12:
+        # spike times not increasing along the spike ids (sorters write a few out-of-order spikes
+        # at batch borders): a few transpositions, some of them far apart
+        for _ in range(rng.randint(1, 4)):
+            i = rng.randrange(ns)
+            j = min(ns - 1, i + rng.choice([1, 1, 2, 5, ns]))
+            times[i], times[j] = times[j], times[i]
     n_clu = rng.randint(1, 6)
     ids = rng.sample(range(0, 12), n_clu)
     clusters = [rng.choice(ids) for _ in range(ns)]
@@ -192,6 +199,8 @@ def execute(plan, ctx):
                 ctx.probe('spike_on_bound')
             if any(t < bounds[0] for t in tvals):
                 ctx.probe('spike_before_first_bound')
+            if any(a > b for a, b in zip(tvals, tvals[1:])):
+                ctx.probe('spike_times_not_sorted')
 
             def in_kept(t):
                 return any(lo <= t < hi for lo, hi in pairs)
